@@ -2,6 +2,7 @@
 import hashlib
 import json
 import os
+import re
 import time
 
 VERIF = os.path.dirname(os.path.dirname(os.path.abspath(__file__)))
@@ -70,8 +71,12 @@ class Recorder:
             return False
         return True
 
-    def unan(self, rid, what, why=""):
+    def unan(self, rid, what, why="", benign=False):
+        """an obligation the rule could not examine. Unless benign (a note that a table entry became unnecessary), it
+        fails closed: an arm/function the rule exists to judge and cannot read is not shown to satisfy the rule."""
         self.unanalysed.append({"rule": rid, "what": what, "why": why})
+        if not benign:
+            self.finding(rid, "UNANALYSED/%s/%s" % (rid, re.sub(r"\s+", " ", str(what))[:80]), "rule %s could not analyse %s: %s (fails closed: the obligation was not examined)" % (rid, what, why))
 
     def assume(self, text):
         if text not in self.assumptions:
